@@ -6,7 +6,7 @@
     [EAssert] (AssertionError); [EFuel] is the model running out of fuel (theorems show it does not
     happen where fuel is computed by the model; search loops for primes take explicit fuel).
     [random.randint(lo, hi)] is an explicit tape: the next tape value [t] yields
-    [lo + t mod (hi - lo + 1)] (an exhausted tape yields [lo]); the harness patches
+    [lo + t mod (hi - lo + 1)] (a tape is a stream with a draw counter; a finite list is padded with 0); the harness patches
     [random.randint] in the same way.  Built-ins [pow(x, y, m)], [math.isqrt], [math.gcd],
     [int.bit_length], [&], [|], [>>] are modelled by [pow3], [Z.sqrt], [Z.gcd], [bit_length],
     [Z.land], [Z.lor], [Z.shiftr]. *)
@@ -22,7 +22,9 @@ Arguments EZeroDiv {A}.
 Arguments EAssert {A}.
 Arguments EFuel {A}.
 
-Definition tape := list Z.
+(** the random tape: a stream of values and the number of values drawn so far *)
+Definition tape : Type := (Z -> Z) * Z.
+Definition of_list (l : list Z) : tape := (fun i => nth (Z.to_nat i) l 0, 0).
 
 (** ---- built-ins ---- *)
 Definition bit_length (x : Z) : Z := if x =? 0 then 0 else Z.log2 (Z.abs x) + 1.
@@ -31,7 +33,7 @@ Definition bit_length (x : Z) : Z := if x =? 0 then 0 else Z.log2 (Z.abs x) + 1.
 Definition val2 (y : Z) : Z := bit_length (Z.land y (- y)) - 1.
 
 Definition randint (lo hi : Z) (tp : tape) : Z * tape :=
-  (lo + (hd 0 tp) mod (hi - lo + 1), tl tp).
+  (lo + (fst tp (snd tp)) mod (hi - lo + 1), (fst tp, snd tp + 1)).
 
 (** number of Euclid steps allowed for divisor f: |f| < 2^k with k = log2_up|f| + 1, fuel 2k+1 *)
 Definition euclid_fuel (f : Z) : nat := (2 * Z.to_nat (Z.log2_up (Z.abs f)) + 3)%nat.
@@ -348,19 +350,14 @@ Definition ratrec (x y : Z) (N D : option Z) : res (Z * Z) :=
 Definition zrange (lo : Z) (n : nat) : list Z := map (fun i => lo + Z.of_nat i) (seq 0 n).
 Definition grid {A} (f : Z -> Z -> A) (lo : Z) (n : nat) (lo2 : Z) (n2 : nat) : list (list A) :=
   map (fun a => map (f a) (zrange lo2 n2)) (zrange lo n).
-Definition used {A} (tp0 : tape) (r : A * tape) : A * nat := (fst r, (length tp0 - length (snd r))%nat).
+Definition used {A} (r : A * tape) : A * Z := (fst r, snd (snd r)).
 
 (** pseudo-random tape computed identically by the harness (so that long tapes need no literals) *)
 Definition M521 : Z := Eval vm_compute in 2 ^ 521 - 1.
-Definition gen_tape (seed x : Z) (n : nat) : tape :=
-  map (fun i => let i := Z.of_nat i in
-                let b := (seed + x) * (2 * i + 1) * 2654435761 + i in
-                (b * b + x * i) mod M521) (seq 0 n).
-Definition run_is_prime (seed : Z) (n : nat) (x : Z) :=
-  let tp := gen_tape seed x n in used tp (is_prime tp x).
-Definition run_next_prime (fuel : nat) (seed : Z) (n : nat) (x : Z) :=
-  let tp := gen_tape seed x n in used tp (next_prime fuel tp x).
-Definition run_prev_prime (fuel : nat) (seed : Z) (n : nat) (x : Z) :=
-  let tp := gen_tape seed x n in used tp (prev_prime fuel tp x).
-Definition run_fpp (npf : nat) (seed : Z) (n : nat) (x : Z) :=
-  let tp := gen_tape seed x n in used tp (factor_prime_power npf tp x).
+Definition gen_tape (M seed x : Z) : tape :=
+  (fun i => let b := (seed + x) * (2 * i + 1) * 2654435761 + i in
+            (b * b + x * i) mod M, 0).
+Definition run_is_prime (M seed x : Z) := used (is_prime (gen_tape M seed x) x).
+Definition run_next_prime (fuel : nat) (M seed x : Z) := used (next_prime fuel (gen_tape M seed x) x).
+Definition run_prev_prime (fuel : nat) (M seed x : Z) := used (prev_prime fuel (gen_tape M seed x) x).
+Definition run_fpp (npf : nat) (M seed x : Z) := used (factor_prime_power npf (gen_tape M seed x) x).
